@@ -169,6 +169,7 @@ var expect = map[string][2]int{}
 
 func main() {
 	run := vr.New("C16", "model_checking")
+	defer run.Recover()
 	run.Rule("explicit enumeration of all server-message histories up to depth H over a 24-event alphabet (service constructors, updates with/without handler, unknown/repeated results, unregistered and truncated bodies, containers, gzip, client-parity id, transport error frame, orderly close); each history is delivered after a first answered request and followed by a probe request; every history is executed on the real client under the scheduler for all schedules within the delay bound (D for single-event histories, one less per further event; quick H=2 D=2, thorough H=3 D=3); non-trivial = the whole history was delivered")
 	run.Assume("a goroutine panic is recorded as process death (fatal event) and ends the execution", "reconnect after close goes through the dial seam to the same reference server; 'same auth key' is checked by the server opening the frames of the new connection without a plain-text frame")
 	// delay bound per history length: a history of L events runs at D-(L-1) delays
